@@ -219,8 +219,7 @@ def evaluate(r, trains, edges, name, kw, be, rank=()):
 
 
 def check_state(r, k, masks, task):
-    trains = [lattice.times(m) for m in masks]
-    edges = lattice.edges(k)
+    trains, edges = pairs.trains_edges(k, masks)
     ns = pairs.nspikes(masks)
     for ci, (name, kw) in enumerate(task["conf"]):
         evaluate(r, trains, edges, name, kw, task["backend"], (k, ns, ci))
